@@ -334,8 +334,8 @@ def _get_or_make_region(
   # position
 
   value = cue_settings.get("position")
-  if value is not None:
-    value = value.split(",")
+  if value is not None or cue_settings.get("size") is not None:
+    value = value.split(",") if value is not None else [None]
 
     if len(value) > 1 and value[1] in ("center", "line-left", "line-right"):
       line_align = value[1]
@@ -347,25 +347,28 @@ def _get_or_make_region(
       else:
         line_align = "center"
 
-    position = parse_vtt_pct(value[0])
+    if value[0] is None:
+      # without a position setting, the position follows from the alignment
+      position = {"line-left": 0, "center": 50, "line-right": 100}[line_align]
+    else:
+      position = parse_vtt_pct(value[0])
     if position is not None:
-      if line_align == "center":
-        if writing_mode in (styles.WritingModeType.rltb, styles.WritingModeType.lrtb):
-          origin_x = position - extent_width / 2
-        else:
-          origin_y = position - extent_height / 2
-      elif line_align == "line-left":
-        if writing_mode in (styles.WritingModeType.rltb, styles.WritingModeType.lrtb):
-          origin_x = position
-        else:
-          origin_y = position
+      # the size of the cue box is limited by its position so that it remains within the root container
+      is_horizontal = writing_mode in (styles.WritingModeType.rltb, styles.WritingModeType.lrtb)
+      size = extent_width if is_horizontal else extent_height
+      if line_align == "line-left":
+        size = max(0, min(size, 100 - position))
+        offset = position
       elif line_align == "line-right":
-        if writing_mode in (styles.WritingModeType.rltb, styles.WritingModeType.lrtb):
-          origin_x = position - extent_width
-        else:
-          origin_y = position - extent_height
+        size = max(0, min(size, position))
+        offset = position - size
       else:
-        LOGGER.warning("Bad position alignment setting value: %s", line_align)
+        size = max(0, min(size, 2 * position, 2 * (100 - position)))
+        offset = position - size / 2
+      if is_horizontal:
+        extent_width, origin_x = size, offset
+      else:
+        extent_height, origin_y = size, offset
 
     else:
       LOGGER.warning("Bad position setting value: %s", cue_settings.get("position"))
